@@ -196,7 +196,11 @@ var panicValues = []any{
 
 var cur []act // script of the request being served (the harness is single threaded)
 
+var curDispatch string
+var curWorld *world
+
 func scripted(c fox.Context) {
+	defer func() { curWorld.events = append(curWorld.events, "done") }()
 	for i, a := range cur {
 		switch a.kind {
 		case aWriteHeader:
@@ -340,7 +344,28 @@ type config struct {
 	rtMode  int         // 0 inherit, 1 nil, 2 set
 	rt      *resolution
 	special bool // scripted 404/405/OPTIONS handlers instead of the defaults
+	attach  int  // how the Logger instance(s) are attached, see attachModes
 }
+
+// how the Logger (one capturing instance, possibly attached several times) is put in the chain
+type attachMode struct {
+	name    string
+	globals string // Coq: list attach, in option order
+	tl, al  int    // instances attached to the target routes / to the alias route
+}
+
+var attachModes = []attachMode{
+	{"WithMiddleware(L)", "[AWithMiddleware]", 0, 0},
+	{"WithMiddlewareFor(Route|NoRoute, L)", "[AWithMiddlewareFor [SRoute; SNoRoute]]", 0, 0},
+	{"WithMiddlewareFor(Route, L)", "[AWithMiddlewareFor [SRoute]]", 0, 0},
+	{"WithMiddlewareFor(NoRoute|NoMethod|Redirect|Options, L)", "[AWithMiddlewareFor [SNoRoute; SNoMethod; SRedirect; SOptions]]", 0, 0},
+	{"route option WithMiddleware(L) on the target routes", "[]", 1, 0},
+	{"WithMiddleware(L) + route option WithMiddleware(L) on every route", "[AWithMiddleware]", 1, 1},
+	{"WithMiddlewareFor(Route, L) + WithMiddlewareFor(AllHandlers, L)", "[AWithMiddlewareFor [SRoute]; AWithMiddlewareFor [SRoute; SNoRoute; SNoMethod; SRedirect; SOptions]]", 0, 0},
+	{"DefaultOptions() + WithMiddleware(L)", "[AWithMiddleware]", 0, 0},
+}
+
+const attachDefaultOptions = 7
 
 func (c config) globCoq() string {
 	if c.glob == nil {
@@ -368,7 +393,7 @@ func (c config) String() string {
 	} else if c.rtMode == 2 {
 		r = c.rt.human
 	}
-	return fmt.Sprintf("global-resolver=%s route-resolver=%s custom-special-handlers=%v", g, r, c.special)
+	return fmt.Sprintf("logger: %s | global-resolver=%s route-resolver=%s custom-special-handlers=%v", attachModes[c.attach].name, g, r, c.special)
 }
 
 func build(cfg config, w *world, withLogger bool) *fox.Router {
@@ -380,8 +405,23 @@ func build(cfg config, w *world, withLogger bool) *fox.Router {
 		}
 	}
 	var opts []fox.GlobalOption
+	L := fox.LoggerWithHandler(capture{w})
+	if cfg.attach == attachDefaultOptions {
+		opts = append(opts, fox.DefaultOptions()) // Recovery() for routes + Logger() to stdout (not observable here)
+	}
 	if withLogger {
-		opts = append(opts, fox.WithMiddleware(fox.LoggerWithHandler(capture{w})))
+		switch cfg.attach {
+		case 0, 5, attachDefaultOptions:
+			opts = append(opts, fox.WithMiddleware(L))
+		case 1:
+			opts = append(opts, fox.WithMiddlewareFor(fox.RouteHandler|fox.NoRouteHandler, L))
+		case 2:
+			opts = append(opts, fox.WithMiddlewareFor(fox.RouteHandler, L))
+		case 3:
+			opts = append(opts, fox.WithMiddlewareFor(fox.NoRouteHandler|fox.NoMethodHandler|fox.RedirectHandler|fox.OptionsHandler, L))
+		case 6:
+			opts = append(opts, fox.WithMiddlewareFor(fox.RouteHandler, L), fox.WithMiddlewareFor(fox.AllHandlers, L))
+		}
 	}
 	opts = append(opts, fox.WithMiddleware(marker), fox.WithRedirectTrailingSlash(true))
 	if cfg.glob != nil {
@@ -402,6 +442,22 @@ func build(cfg config, w *world, withLogger bool) *fox.Router {
 		ro = append(ro, fox.WithClientIPResolver(cfg.rt))
 	}
 	must := func(_ *fox.Route, err error) { hx.Fatal(err) }
+	aliasOpts := append([]fox.RouteOption{}, ro...)
+	if withLogger && attachModes[cfg.attach].al > 0 {
+		aliasOpts = append(aliasOpts, fox.WithMiddleware(L))
+	}
+	// the alias route re-dispatches to the route GET /r/{id} through the secondary entry points
+	must(f.Handle("GET", "/alias/{id}", func(c fox.Context) {
+		target := c.Fox().Route("GET", "/r/{id}")
+		if curDispatch == "DAliasHandle" {
+			target.Handle(c)
+		} else {
+			target.HandleMiddleware(c)
+		}
+	}, aliasOpts...))
+	if withLogger && attachModes[cfg.attach].tl > 0 {
+		ro = append(ro, fox.WithMiddleware(L))
+	}
 	must(f.Handle("GET", "/r/{id}", scripted, ro...))
 	must(f.Handle("DELETE", "/r/{id}", scripted, ro...))
 	must(f.Handle("POST", "/only", scripted, ro...))
@@ -416,20 +472,25 @@ type reqSpec struct {
 	method string
 	target string // request target
 	path   string // expected c.Path()
+	disp   string // "" = ServeHTTP; else the secondary entry point
 }
 
 var requests = []reqSpec{
-	{"KRoute", "GET", "/r/123", "/r/123"},
-	{"KRoute", "DELETE", "/r/a%2Fb", "/r/a/b"},
-	{"KRouteTsr", "GET", "/ign", "/ign"},
-	{"KNoRoute", "GET", "/nothing/here", "/nothing/here"},
-	{"KNoRoute", "PURGE", "/zzz", "/zzz"},
-	{"KNoMethod", "GET", "/only", "/only"},
-	{"KNoMethod", "PUT", "/r/9", "/r/9"},
-	{"KRedirect", "GET", "/dir", "/dir"},
-	{"KRedirect", "POST", "/dir", "/dir"},
-	{"KOptions", "OPTIONS", "/r/1", "/r/1"},
-	{"KOptions", "OPTIONS", "/only", "/only"},
+	{"KRoute", "GET", "/r/123", "/r/123", ""},
+	{"KRoute", "GET", "/alias/77", "/alias/77", "DAliasMiddleware"},
+	{"KRoute", "GET", "/alias/78", "/alias/78", "DAliasHandle"},
+	{"KRoute", "GET", "/r/456", "/r/456", "DLookupMiddleware"},
+	{"KRoute", "GET", "/r/457", "/r/457", "DLookupHandle"},
+	{"KRoute", "DELETE", "/r/a%2Fb", "/r/a/b", ""},
+	{"KRouteTsr", "GET", "/ign", "/ign", ""},
+	{"KNoRoute", "GET", "/nothing/here", "/nothing/here", ""},
+	{"KNoRoute", "PURGE", "/zzz", "/zzz", ""},
+	{"KNoMethod", "GET", "/only", "/only", ""},
+	{"KNoMethod", "PUT", "/r/9", "/r/9", ""},
+	{"KRedirect", "GET", "/dir", "/dir", ""},
+	{"KRedirect", "POST", "/dir", "/dir", ""},
+	{"KOptions", "OPTIONS", "/r/1", "/r/1", ""},
+	{"KOptions", "OPTIONS", "/only", "/only", ""},
 }
 
 type remote struct{ addr, ip string }
@@ -456,6 +517,8 @@ type observed struct {
 func serve(f *fox.Router, w *world, rq reqSpec, host string, rm remote, script []act, fk int) observed {
 	w.recs, w.events = nil, nil
 	cur = script
+	curWorld = w
+	curDispatch = rq.disp
 	u := newUW()
 	pu, _ := url.ParseRequestURI(rq.target)
 	req := &http.Request{Method: rq.method, URL: pu, Proto: "HTTP/1.1", ProtoMajor: 1, ProtoMinor: 1,
@@ -473,17 +536,37 @@ func serve(f *fox.Router, w *world, rq reqSpec, host string, rm remote, script [
 				}
 			}
 		}()
+		if strings.HasPrefix(rq.disp, "DLookup") {
+			// Router.Lookup then Route.HandleMiddleware / Route.Handle on the returned context
+			rw := fox.NewTestContextOnly(u.as(fk), req).Writer()
+			route, cc, _ := f.Lookup(rw, req)
+			if route == nil {
+				panic("lookup failed")
+			}
+			defer cc.Close()
+			if rq.disp == "DLookupHandle" {
+				route.Handle(cc)
+			} else {
+				route.HandleMiddleware(cc)
+			}
+			return
+		}
 		f.ServeHTTP(u.as(fk), req)
 	}()
 	o.recs = w.recs
 	o.status = u.final()
 	o.location = u.hdr.Get("Location")
 	o.digest = u.digest()
-	// every record arrived after the wrapped handler chain was left ("exit" of the innermost marker)
+	// every record arrived after the handler finished: "done" of our scripted handler, else (handlers fox
+	// supplies) "exit" of the innermost router-wide marker middleware
 	o.after = true
 	exited := false
+	hasDone := false
 	for _, e := range w.events {
-		if e == "exit" {
+		hasDone = hasDone || e == "done"
+	}
+	for _, e := range w.events {
+		if (hasDone && e == "done") || (!hasDone && e == "exit") {
 			exited = true
 		}
 		if e == "log" && !exited {
@@ -629,7 +712,7 @@ func main() {
 			"Definition viol := Eval vm_compute in spec_violations cases.\nPrint viol.\n" +
 			"Definition oof := Eval vm_compute in fuel_outs cases.\nPrint oof.\n",
 	}
-	st := &hx.Stats{Rule: "per configuration (router-wide resolver: none/ok/error tree; per-route resolver: inherit/nil/set; default or scripted 404/405/OPTIONS handlers) two routers are built (with and without LoggerWithHandler(capture)); every request kind (route, route via ignore-trailing-slash, 404, 405, redirect 301/308, OPTIONS) is served with scripts of writer actions: (a) every status of a boundary list alone, (b) seeded random scripts (no write, implicit 200, 1xx then final, superfluous WriteHeader, Location before/after the status line, Flush/FlushError first (c.Writer().FlushError() or http.NewResponseController(w).Flush(), on an underlying writer offering nothing / http.Flusher / FlushError() error; enumerated with then-nothing / WriteHeader(500|404|302) / Write) — the underlying writers record what the CLIENT received (first final status forwarded; 200 after a bare flush or write), panic with one of 6 values at a random position); non-trivial = anything but a plain 2xx route request without resolver; distinct = distinct (configuration, request, host, remote, script) tuples"}
+	st := &hx.Stats{Rule: "per configuration (Logger attached by WithMiddleware / WithMiddlewareFor with 4 scope masks / route option / several at once / DefaultOptions; router-wide resolver: none/ok/error tree; per-route resolver: inherit/nil/set; default or scripted 404/405/OPTIONS handlers) two routers are built (with and without LoggerWithHandler(capture)); every request kind (route, route reached through an alias handler calling Route.HandleMiddleware or Route.Handle, route reached by Router.Lookup + HandleMiddleware / Handle, route via ignore-trailing-slash, 404, 405, redirect 301/308, OPTIONS) is served with scripts of writer actions: (a) every status of a boundary list alone, (b) seeded random scripts (no write, implicit 200, 1xx then final, superfluous WriteHeader, Location before/after the status line, Flush/FlushError first (c.Writer().FlushError() or http.NewResponseController(w).Flush(), on an underlying writer offering nothing / http.Flusher / FlushError() error; enumerated with then-nothing / WriteHeader(500|404|302) / Write) — the underlying writers record what the CLIENT received (first final status forwarded; 200 after a bare flush or write), panic with one of 6 values at a random position); non-trivial = anything but a plain 2xx route request without resolver; distinct = distinct (configuration, request, host, remote, script) tuples"}
 	seen := map[string]bool{}
 	nontrivial := 0
 
@@ -691,6 +774,8 @@ func main() {
 				cfg.special = rnd.Bool()
 			}
 		}
+		// how the Logger is attached: every mode is used by the first configurations, then in rotation
+		cfg.attach = ci % len(attachModes)
 		w := &world{}
 		withL := build(cfg, w, true)
 		w0 := &world{}
@@ -703,12 +788,12 @@ func main() {
 			}
 			var scripts [][]act
 			if scriptable {
-				if ci < 3 || tier == "thorough" {
+				if (ci < 3 || tier == "thorough") && rq.disp == "" {
 					for _, s := range statuses {
 						scripts = append(scripts, []act{{kind: aWriteHeader, code: s}})
 					}
 				}
-				if ci < 3 || tier == "thorough" {
+				if (ci < 3 || tier == "thorough") && rq.disp == "" {
 					// flush first on each kind of underlying writer, through both entry points, then
 					// WriteHeader(other code) / Write / nothing  (fk is stamped below from the script index)
 					for via := 0; via < 2; via++ {
@@ -723,6 +808,9 @@ func main() {
 				if light {
 					nr = 3
 				}
+				if rq.disp != "" && tier != "thorough" && nr > 4 {
+					nr = 4 // secondary entry points: the chain, not the handler, is the point
+				}
 				for i := 0; i < nr; i++ {
 					scripts = append(scripts, genScript(rnd))
 				}
@@ -732,6 +820,15 @@ func main() {
 			for _, script := range scripts {
 				host := hx.Pick(rnd, hosts)
 				rm := hx.Pick(rnd, remotes)
+				if cfg.attach == attachDefaultOptions {
+					var np []act
+					for _, a := range script {
+						if a.kind != aPanic {
+							np = append(np, a)
+						}
+					}
+					script = np
+				}
 				// what the underlying writer offers for flushing (forced by the enumerated flush scripts)
 				fk := rnd.Intn(3)
 				script = append([]act{}, script...)
@@ -758,13 +855,18 @@ func main() {
 				}
 				acts := hx.ListOf(mscript, func(a act) string { return a.coq() })
 				gc, rc := strings.ReplaceAll(cfg.globCoq(), remotePlaceholder, hx.Bytes(rm.ip)), strings.ReplaceAll(cfg.rtCoq(), remotePlaceholder, hx.Bytes(rm.ip))
-				key := fmt.Sprintf("%s|%s|%s|%s|%s|%s|%s|%s|%s", gc, rc, rq.kind, rq.method, rq.target, host, rm.addr, acts, hx.Bool(cfg.special))
+				key := fmt.Sprintf("%s|%s|%s|%s|%s|%s|%s|%s|%s|%d|%s", gc, rc, rq.kind, rq.method, rq.target, host, rm.addr, acts, hx.Bool(cfg.special), cfg.attach, rq.disp)
 				if seen[key] {
 					continue
 				}
 				seen[key] = true
 				pan := hx.Opt(o.panicID >= 0, hx.N(uint64(max(o.panicID, 0))))
-				term := fmt.Sprintf("(mk %s %s %s %s %s %s %s %s %s %s %s %s %s %s)",
+				disp := rq.disp
+				if disp == "" {
+					disp = "DServe"
+				}
+				am := attachModes[cfg.attach]
+				term := fmt.Sprintf("(mk %s %s %s %s %s %s %s %s %s %s %s %s %s %s "+disp+" "+am.globals+" "+fmt.Sprint(am.tl)+" "+fmt.Sprint(am.al)+")",
 					rq.kind, gc, rc, hx.Bytes(rq.method), hx.Bytes(host), hx.Bytes(rq.path), hx.Bytes(rm.ip),
 					acts, hx.ListOf(o.recs, func(r rec) string { return "(" + recCoq(r) + ")" }), pan,
 					hx.Z(int64(o.status)), hx.Bytes(o.location), hx.Bool(same), hx.Bool(o.after))
@@ -776,10 +878,15 @@ func main() {
 				for _, r := range o.recs {
 					rs = append(rs, recHuman(r))
 				}
-				human := fmt.Sprintf("%s | %s %s Host=%q RemoteAddr=%s (%s) | handler: [%s] => records [%s] panic=%d status=%d Location=%q same-response-as-without-logger=%v logged-after-handler=%v",
-					cfg, rq.method, rq.target, host, rm.addr, rq.kind, strings.Join(hs, "; "), strings.Join(rs, " || "), o.panicID, o.status, o.location, same, o.after)
+				human := fmt.Sprintf("%s | %s %s Host=%q RemoteAddr=%s (%s%s) | handler: [%s] => records [%s] panic=%d status=%d Location=%q same-response-as-without-logger=%v logged-after-handler=%v",
+					cfg, rq.method, rq.target, host, rm.addr, rq.kind, map[bool]string{true: "", false: " via " + rq.disp}[rq.disp == ""], strings.Join(hs, "; "), strings.Join(rs, " || "), o.panicID, o.status, o.location, same, o.after)
 				cs.Add(term, human)
 				st.Count("kind:" + rq.kind)
+				st.Count("logger-attached:" + attachModes[cfg.attach].name)
+				st.Count(fmt.Sprintf("records-per-request:%d", len(o.recs)))
+				if rq.disp != "" {
+					st.Count("entry-point:" + rq.disp)
+				}
 				st.Count(fmt.Sprintf("status-class:%dxx", o.status/100))
 				if o.panicID >= 0 {
 					st.Count("outcome:panic")
